@@ -61,7 +61,11 @@ def tasks(tier):
     # order1 hands the 4x4 system to augmented_matrix / gj_solve (C13): their
     # contracts for n = 4 are re-proved here
     return ['shepard', 'sph', 'splash', 'splash_norm', 'order1', 'traces',
-            'setup', 'canary', 'dep:C13:helpers:4', 'dep:C13:gj:4:1']
+            'setup', 'canary', 'dep:C13:helpers:4', 'dep:C13:gj:4:1',
+            # new points / arrays reach the compiled evaluator through
+            # AccelerationEval.set_nnps / update_particle_arrays (C03) and the
+            # array wrappers (C02)
+            'dep:C03:forward', 'dep:C02:wrapper']
 
 
 # ------------------------------------------------------------------ helpers
